@@ -773,6 +773,30 @@ static int addRequest(KSI_AsyncClient *c, KSI_AsyncHandle *handle, void *req,
 	handle->len = len;
 	handle->sentCount = 0;
 
+	/* A multi-payload request gets a separate conf request handle, as the response can not be
+	 * assigned to any request in the common cache. Create it before anything is committed:
+	 * once the request is in the output queue and the cache, the call must not fail any more. */
+	if (hasConfig && hasRequest) {
+		KSI_Config *reqConf = NULL;
+		KSI_Config *confRef = NULL;
+
+		res = req_new(c->ctx, &tmpReq);
+		if (res != KSI_OK) goto cleanup;
+
+		res = req_getConfig(req, &reqConf);
+		if (res != KSI_OK) goto cleanup;
+
+		res = req_setConfig(tmpReq, (confRef = KSI_Config_ref(reqConf)));
+		if (res != KSI_OK) {
+			KSI_Config_free(confRef);
+			goto cleanup;
+		}
+
+		res = asyncHandle_new(c->ctx, tmpReq, &confHandle);
+		if (res != KSI_OK) goto cleanup;
+		tmpReq = NULL;
+	}
+
 	/* Add request to the impl output queue. The query might fail if the queue is full. */
 	res = c->addRequest(c->clientImpl, (hndlRef = KSI_AsyncHandle_ref(handle)));
 	if (res != KSI_OK) {
@@ -786,30 +810,9 @@ static int addRequest(KSI_AsyncClient *c, KSI_AsyncHandle *handle, void *req,
 		c->pending++;
 	}
 
-	/* Cache the config request separatelly, as the response can not be assigned to any request in the common cache. */
+	/* Cache the config request separatelly. */
 	if (hasConfig) {
-		/* Check if this is a multy-payload request. */
 		if (hasRequest) {
-			KSI_Config *reqConf = NULL;
-			KSI_Config *confRef = NULL;
-
-			/* Create a separate conf request handle. */
-			res = req_new(c->ctx, &tmpReq);
-			if (res != KSI_OK) goto cleanup;
-
-			res = req_getConfig(req, &reqConf);
-			if (res != KSI_OK) goto cleanup;
-
-			res = req_setConfig(tmpReq, (confRef = KSI_Config_ref(reqConf)));
-			if (res != KSI_OK) {
-				KSI_Config_free(confRef);
-				goto cleanup;
-			}
-
-			res = asyncHandle_new(c->ctx, tmpReq, &confHandle);
-			if (res != KSI_OK) goto cleanup;
-			tmpReq = NULL;
-
 			/* Copy the send state from the initial handle. */
 			confHandle->state = handle->state;
 			confHandle->reqTime = handle->reqTime;
